@@ -69,7 +69,9 @@ package ipnisync
 //@   requires s != nil && s.sync != nil && data != nil && ctx != nil
 //@   ghost eq := false
 //@   at call TeeReader#1: assert arg0 == data && arg1 == writer
-//@   at call SumStream#1: assert arg0 == tee && arg1 == mhTypeOf(str(c.str)) && arg2 == mhLenOf(str(c.str))
+//@   ghost teeR := zero("io.Reader")
+//@   at call TeeReader#1: after ghost teeR := result
+//@   at call SumStream#1: assert arg0 == teeR && count("call:TeeReader") == 1 && arg1 == mhTypeOf(str(c.str)) && arg2 == mhLenOf(str(c.str))
 //@   at call Equal#1: assert content(arg0) == cidHashOf(str(c.str)) && arg1 == sum
 //@   at call Equal#1: after ghost eq := result
 //@   at call committer#1: assert eq && str(as(arg0, "cidlink.Link").Cid.str) == str(c.str)
